@@ -405,7 +405,7 @@ class C11(Campaign):
                 ep = next((i for i, o in enumerate(out) if i > 0 and o.get("inst") == "A"
                            and o["op"] in ("send", "activate", "send2", "activate2")), 1)
             sc["beh"].setdefault(f"{prog['name']}/{c}", []).insert(
-                0, {"ep": ep, "j": 0, "dp": 0, "raise": rnd.choice(["SimFault", "SimBaseFault"]), "_fault": True})
+                0, {"ep": ep, "j": 0, "dp": 0, "raise": rnd.choice(["SimFault", "SimBaseFault", "SimRuntime", "SimAttr"]), "_fault": True})
             sc["activation_fault"] = True
             # make sure something follows: a restart over the surviving model and a re-activation
             n2 = dict(first)
